@@ -295,7 +295,8 @@ def run_c03(tier: str) -> int:
              {"hashseed": "random", "store": "local", "debug": False, "copy_to": common.sub_scratch("corpus_copy"),
               "cwd": common.sub_scratch("corpus_cwd")}]
     if tier == "thorough":
-        cenvs.append({"hashseed": "99", "store": "noop", "debug": True, "copy_to": common.sub_scratch("corpus_copy2")})
+        # (the noop store cannot serve dds.load: corpus programs with loads need a real store)
+        cenvs.append({"hashseed": "99", "store": "memory", "debug": False, "copy_to": common.sub_scratch("corpus_copy2")})
     pinned_rows = []
     for (ek, m) in sorted(pinned.items()):
         for (p, k) in sorted(m.items()):
